@@ -9,6 +9,8 @@ fn main() {
             println!("{}", serde_json::json!({"hooks": trace::HAS_HOOKS}));
         }
         "bytes-fidelity" => bytesfid::main(&rest),
+        "c10-get" => extra::c10_get(&rest),
+        "c14-extra" => extra::c14_extra(&rest),
         "cache-replay" => replay::main(&rest),
         "rid-replay" => c18::replay(&rest),
         "rid-conc" => c18::concurrent(&rest),
